@@ -67,6 +67,30 @@ LIST_VALUED = {
 }
 
 
+def fixed_cases(tier):
+    """Long machine sequences (two machines, 30 operations; then 120
+    operations on ten machines): every state is queried for the completed /
+    ongoing partition and a rotating third query."""
+    narrow = {
+        "durations": [[1 + (j + 2 * p) % 3 for p in range(6)] for j in range(5)],
+        "machines": [[[(j + p) % 2] for p in range(6)] for j in range(5)],
+        "name": "I",
+        "meta": {},
+        "ints": True,
+        "family": "fixed_narrow",
+    }
+    cases = []
+    for inst, n in ((narrow, 30), (gen.big_classic(12, 10), 120)):
+        events = []
+        for k in range(n):
+            events.append(["d", (3 * k + 1) % 8, 0])
+            events.append(["q", 18, k, 0])  # partition
+            events.append(["q", 7, k, 0])  # completed_operations
+            events.append(["q", k % len(QUERIES), k, k % 3])
+        cases.append({"inst": inst, "filters": None, "events": events, "observers": []})
+    return cases
+
+
 def strategy(tier):
     big = tier == "thorough"
     inst = gen.instances(
